@@ -136,6 +136,8 @@ pub fn timeshift_main() {
 
 /// Parent side: the golden-digest pass followed by the time-shift pass.
 pub fn extra_pass() -> (serde_json::Value, Vec<Violation>, Vec<String>) {
+    // the fork-boundary histories need ~30 s of mining: they run beside everything else
+    let forks = super::golden::forks_spawn();
     let (mut cov, mut vs, mut errors) = super::golden::check();
     let exe = std::env::current_exe().expect("exe");
     match std::process::Command::new(&exe).arg("c02-timeshift").stderr(std::process::Stdio::null()).output() {
@@ -158,6 +160,12 @@ pub fn extra_pass() -> (serde_json::Value, Vec<Violation>, Vec<String>) {
             }
         }
         Err(e) => errors.push(format!("time-shift pass: {}", e)),
+    }
+    let (fcov, fvs, ferr) = super::golden::forks_collect(forks);
+    vs.extend(fvs);
+    errors.extend(ferr);
+    if let Some(o) = cov.as_object_mut() {
+        o.insert("fork_boundaries".into(), fcov);
     }
     (cov, vs, errors)
 }
